@@ -18,4 +18,7 @@ open Emboss.Lr1
 #print axioms C08_gen_closure
 #print axioms C08_gen_goto
 #print axioms C08_error_position
+#print axioms C08_reduced_check_sound
+#print axioms C08_error_position_checked
+#print axioms C08_gen_error_position
 #print axioms C08_error_position_unproductive_counterexample
